@@ -1,11 +1,13 @@
 (* Corr/C12.v — judges for the C12 correspondence.
 
-   judge      : one project, several traced runs of the real pipeline under forced enumeration
-                orders; the model must reproduce the identifier of every entity in every run
-                (bit0), the runs must agree with the first one (bit1: the property), projects
-                with competing names are the known region 1.
-   judge_emit : node emission of one graph hop: the implementation's order must be what the
-                model computes from the same nodes in another order. *)
+   judge       : one project, several traced runs of the real pipeline; the model must reproduce
+                 the parse order, the loop structure and the identifier of every entity in every
+                 run (bit0); the runs of the real code must agree with the first one (bit1: the
+                 property).  There is no known region any more.
+   judge_emit  : node emission of one graph hop.
+   judge_edges : child edges of one InheritedByGraph node.
+   judge_table : rows of the table that replaces an oversized graph.
+   judge_uses  : ford.output.sort_by_name on a set of module names. *)
 From Ford Require Import Base.Str Base.Order Out.Names Out.Project.
 
 Definition mk (id : nat) (d n : str) : req := {| r_id := id; r_dir := d; r_name := n |}.
@@ -19,8 +21,9 @@ Fixpoint sparse_get {A} (k : nat) (l : list (nat * list A)) : list A :=
 Definition dense {A} (n : nat) (l : list (nat * list A)) : list (list A) :=
   map (fun k => sparse_get k l) (seq 0 n).
 
-Definition n_segs : nat := 45.
+Definition n_segs : nat := 47.
 Definition n_sets : nat := 8.
+Definition n_idsets : nat := 2.
 
 (* entity table: id |-> (get_dir() as text, name) *)
 Definition ents := list (nat * (str * str)).
@@ -43,22 +46,25 @@ Definition same_ids (a b : list nat) : bool :=
   (length a =? length b) && forallb (fun x => existsb (Nat.eqb x) b) a
   && forallb (fun x => existsb (Nat.eqb x) a) b.
 
-(* one run: (sorted?, pi, observed parse order), the observed order of every set phase, the
-   identifiers FORD assigned.
+(* one run: (sorted?, pi, observed parse order), the observed sequence of every fixed phase, the
+   observed requests of every id-set phase, the identifiers FORD assigned.
    sorted? = true : the real code; pi is the order in which the patched find_all_files handed the
                     set over; Project.__init__ sorts it.
    sorted? = false: the same run with the name `sorted` neutralised inside ford.fortran_project, so
                     that the files are parsed in the order pi: exercises the pipeline model
-                    (idents_enum) under arbitrary enumerations, the premise of the theorems. *)
-Definition arun := ((bool * list nat * list nat) * list (nat * list nat) * list (nat * str))%type.
+                    (idents_enum) under arbitrary enumerations. *)
+Definition arun := ((bool * list nat * list nat) * list (nat * list nat) * list (nat * list nat)
+                    * list (nat * str))%type.
 
 Definition acase := (ents * list (list str * list (nat * list nat)) * list arun)%type.
 
-Definition run_sets (r : arun) := snd (fst r).
+Definition run_head (r : arun) := fst (fst (fst r)).
+Definition run_fixed (r : arun) := snd (fst (fst r)).
+Definition run_idsets (r : arun) := snd (fst r).
 Definition run_impl (r : arun) := snd r.
-Definition run_sorted (r : arun) := fst (fst (fst (fst r))).
-Definition run_pi (r : arun) := snd (fst (fst (fst r))).
-Definition run_obs (r : arun) := snd (fst (fst r)).
+Definition run_sorted (r : arun) := fst (fst (run_head r)).
+Definition run_pi (r : arun) := snd (fst (run_head r)).
+Definition run_obs (r : arun) := snd (run_head r).
 
 Fixpoint impl_get (id : nat) (l : list (nat * str)) : option str :=
   match l with
@@ -70,9 +76,21 @@ Definition project_of (c : acase) : project :=
   let e := fst (fst c) in
   {| p_files := map (build_file e) (snd (fst c));
      p_sets := match snd c with
-               | r0 :: _ => dense n_sets (reqs_of e (run_sets r0))
+               | r0 :: _ => dense n_sets (reqs_of e (run_fixed r0))
                | [] => []
-               end |}.
+               end;
+     p_idsel := match snd c with
+                | r0 :: _ => dense n_idsets (run_idsets r0)
+                | [] => []
+                end |}.
+
+(* fixed phases: two observed sequences (entity ids) agree key by key (Out/Project.v key_equiv) *)
+Definition key_equivb (e : ents) (a b : list nat) : bool :=
+  let kd (l : list nat) := map (fun id => (id, let dn := ent_get id e in (fst dn, final_name (snd dn)))) l in
+  let ka := kd a in let kb := kd b in
+  forallb (fun x => list_eqb Nat.eqb (map fst (filter (fun y => key_eqb (snd y) (snd x)) ka))
+                                     (map fst (filter (fun y => key_eqb (snd y) (snd x)) kb)))
+          (ka ++ kb).
 
 (* the enumeration the model predicts for a run *)
 Definition model_enum (P : project) (r : arun) : list pfile :=
@@ -81,12 +99,26 @@ Definition model_enum (P : project) (r : arun) : list pfile :=
 
 Definition model_ok (c : acase) (P : project) (r0 r : arun) : bool :=
   let e := fst (fst c) in
-  let sets := dense n_sets (reqs_of e (run_sets r)) in
+  let fixed := dense n_sets (reqs_of e (run_fixed r)) in
+  let idt := dense n_idsets (reqs_of e (run_idsets r)) in
   let enum := model_enum P r in
-  let st := final_state enum sets in
+  let st := final_state enum fixed idt in
+  let covered := idsel_of pipeline enum (p_idsel P) in
   is_permb (run_pi r) (length (p_files P))
+  (* the files are parsed in the model's order *)
   && list_eqb (list_eqb str_eqb) (map f_path enum) (map f_path (enumerate (p_files P) (run_obs r)))
-  && forallb (fun k => same_ids (sparse_get k (run_sets r0)) (sparse_get k (run_sets r))) (seq 0 n_sets)
+  (* fixed phases: in every run of the real code the same sequence, up to the order among requests for
+     different (directory, name) keys; the same entities otherwise *)
+  && forallb (fun k => if run_sorted r
+                       then key_equivb e (sparse_get k (run_fixed r0)) (sparse_get k (run_fixed r))
+                       else same_ids (sparse_get k (run_fixed r0)) (sparse_get k (run_fixed r)))
+             (seq 0 n_sets)
+  (* id-set phases: the same entities in every run, all of them requested by an earlier by-file phase *)
+  && forallb (fun k => same_ids (sparse_get k (run_idsets r0)) (sparse_get k (run_idsets r))
+                       && forallb (fun id => existsb (fun q => Nat.eqb id (r_id q)) (nth k covered []))
+                                  (sparse_get k (run_idsets r)))
+             (seq 0 n_idsets)
+  (* the identifier of every entity *)
   && forallb (fun kv => opt_eqb str_eqb (ident_in st (fst kv)) (Some (snd kv))) (run_impl r)
   && forallb (fun kv => match impl_get (fst kv) (run_impl r) with Some _ => true | None => false end) e.
 
@@ -96,22 +128,12 @@ Definition agree (r0 r : arun) : bool :=
   ((length (run_impl r0) =? length (run_impl r))
    && forallb (fun kv => opt_eqb str_eqb (impl_get (fst kv) (run_impl r0)) (Some (snd kv))) (run_impl r)).
 
-(* the region predicate of C12_partial, evaluated on the entity table: some entity requested in a
-   set-ordered phase shares its (directory, normalised name) with another entity *)
-Definition sets_isolated_ents (e : ents) (set_ids : list nat) : bool :=
-  let keyed := map (fun kv => (fst kv, (fst (snd kv), final_name (snd (snd kv))))) e in
-  forallb (fun a => negb (existsb (Nat.eqb (fst a)) set_ids) ||
-                    forallb (fun b => Nat.eqb (fst a) (fst b) || negb (key_eqb (snd a) (snd b))) keyed)
-          keyed.
-
 Definition judge (c : acase) : nat :=
   let P := project_of c in
   match snd c with
   | [] => 0
   | r0 :: rs =>
-    verdict (negb (forallb (model_ok c P r0) (r0 :: rs)))
-            (negb (forallb (agree r0) rs))
-            (if sets_isolated_ents (fst (fst c)) (concat (map snd (run_sets r0))) then 0 else 1)
+    verdict (negb (forallb (model_ok c P r0) (r0 :: rs))) (negb (forallb (agree r0) rs)) 0
   end.
 
 (* which run of a case disagrees with the model (for the replay file) *)
@@ -136,3 +158,18 @@ Definition judge_edges (c : str * list str * list str) : nat :=
   verdict (negb (list_eqb str_eqb (map fst (emit_child_edges parent given (seq 0 (length given)))) impl))
           (negb (list_eqb str_eqb (isort str_leb impl) impl))
           0.
+
+(* the table that replaces an oversized graph: [given] = the neighbours (identifier, label) in
+   another order, [impl] = the identifiers in the order of the rows FORD wrote.  A mismatch is a
+   violation of the property as well: the rows are then not the function of the set the model
+   computes (any other function would have to be modelled first) *)
+Definition judge_table (c : list (str * str) * list str) : nat :=
+  let given := fst c in let impl := snd c in
+  let bad := negb (list_eqb str_eqb (map fst (emit_table_rows given (seq 0 (length given)))) impl) in
+  verdict bad bad 0.
+
+(* ford.output.sort_by_name: [given] = the names in another order, [impl] = what the filter returned *)
+Definition judge_uses (c : list str * list str) : nat :=
+  let given := fst c in let impl := snd c in
+  let bad := negb (list_eqb str_eqb (shown_uses given (seq 0 (length given))) impl) in
+  verdict bad bad 0.
